@@ -20,17 +20,19 @@ PROP = dict(
             "traces = the same-array (aliasing) executions among them, each compared with the copy-first model; all three are counted in the rel "
             "pass only (the asan pass repeats a subset and adds nothing to these counters)",
     rule="a case is one (type, constness, n, i1, i2, step) tuple (reads), one destination tuple with all its right-hand sides (writes), "
-         "one destination slice with all equal-count source slices on the same array (pairs) or one (type, n) closure; "
+         "one destination slice with all equal-count source slices on the same array (pairs), one (type, n) closure or one tuple with all array=slice forms (self.assign); "
          "non-trivial = the expected selection has >= 2 elements or the statement lists the situation as throwing, resp. a "
          "right-hand side of unequal count",
     bounds=dict(
         quick="reads: whole box n<=10, i1,i2 in [-n-3,n+3], step -5..5 x {real,cmplx} x {const,mutable} + end forms; scalar/array/list right-hand sides for every valid "
               "destination n<=10 (lengths 0..count+2); slices of another array: destination n<=8 x all valid source tuples n2<=4, mutable and "
-              "const; same-array pairs n<=6, closure n<=4; BIG arrays (both passes): lattice i1,i2 in {0,+-1,+-2,+-n/2,+-(n-1),+-n,+-(n+1)} x step +-{1,2,3,7,n/2,n-1,n,n+1,...} on "
+              "const; array = slice of itself (check self.assign: x = x.slice, x = cx.slice through a const reference, both twice in a row, x = *x.slice, x = y.slice with x of length "
+              "0,1,n-2,n,n+3, x = array(x.slice)*2, x = array(x.slice)+array(x.slice [shifted])) for every valid tuple n<=8, steps -5..5, plus 10 big tuples on n=70000 (reversed, "
+              "steps -1,-2,-7,-65537, 1, 3, 65537); same-array pairs n<=6, closure n<=4; BIG arrays (both passes): lattice i1,i2 in {0,+-1,+-2,+-n/2,+-(n-1),+-n,+-(n+1)} x step +-{1,2,3,7,n/2,n-1,n,n+1,...} on "
               "n=1000, n=5000 (>4096) and n=200000 (>65536; extra steps +-65537, +-70000; counts 200000, 100000, 66667 exceed 65536) with read, scalar/array/slice "
               "assignment and same-array shifted / reversed strided assignment. asan pass: lists n<=6, other-array n<=6 x n2<=3, pairs n<=5, closure n<=3, same BIG lattice",
         thorough="reads: n<=32 (asan pass 16), i1,i2 in [-n-3,n+3], step -8..8 (4.3M tuples); scalar/array right-hand sides n<=16 (asan 12), lists n<=10; other-array "
-                 "destination n<=12 x n2<=7 (asan 10 x 4); same-array pairs n<=10 (steps -n..n, all in-range spellings; asan n<=8); closure over all reachable contents n<=6 "
+                 "destination n<=12 x n2<=7 (asan 10 x 4); self.assign n<=12, steps -8..8 (asan 10) and big n=70000, 200000; same-array pairs n<=10 (steps -n..n, all in-range spellings; asan n<=8); closure over all reachable contents n<=6 "
                  "(5.1G transitions; asan n<=5); BIG lattice additionally n=100000"),
     deadline=dict(quick=150, thorough=3000),
     # symbolize=0: a sanitizer report of a forked child costs ~6 ms instead of ~120 ms (the report text still names the error kind)
@@ -43,6 +45,8 @@ PROP = dict(
         "x.slice(0,n) = x (the array object itself as source) may throw or be a no-op",
         "indexing::end stands for i2 = n; random triples for n up to 1e5 are replaced by a fixed 13 x 13 x 20 lattice of boundary values on n = 1000, 5000, 200000 (100000)",
         "a slice is read through size(), begin()/end() iteration, operator*, array construction and assignment to an array",
+        "self.assign: an array assigned from a slice of itself (or an expression of materialised slices of itself) must equal Python's selection of the OLD contents, "
+        "with the new length; slices have no arithmetic operators, so the expression forms materialise them explicitly (array(x.slice) * 2, array(x.slice) + array(x.slice))",
         "a sanitizer report / fatal signal in the harness process is recorded as a violation of the case in progress and stops that shard (capped)",
     ],
 )
